@@ -102,36 +102,45 @@ Theorem C12_rekey_refused : forall protect old_tsi old_tsr tsis tsrs tn,
 Proof. exact rekey_refused. Qed.
 Print Assumptions C12_rekey_refused.
 
-(** rekey: what is installed - decided by the first policy entry comparable with the replaced SA's selectors;
-    never wider than the replaced SA's *)
+(** rekey: what is installed - the replaced SA's selectors if some policy entry covers them (first such entry),
+    otherwise those of the first entry inside them; never wider than the replaced SA's *)
 Theorem C12_rekey_installed : forall protect old_tsi old_tsr tsis tsrs tn c ch,
   responder_child protect (Some (old_tsi, old_tsr)) tsis tsrs tn = Ok (c, ch) ->
   exists pre post, protect = pre ++ c :: post /\
-    (forall c', In c' pre -> comparable old_tsr old_tsi c' = false) /\
-    ((larger_rule old_tsr old_tsi c = true /\ ch_tsi ch = old_tsi /\ ch_tsr ch = old_tsr) \/
-     (larger_rule old_tsr old_tsi c = false /\ smaller_rule old_tsr old_tsi c = true /\
+    (((forall c', In c' pre -> larger_rule old_tsr old_tsi c' = false) /\ larger_rule old_tsr old_tsi c = true /\
+      ch_tsi ch = old_tsi /\ ch_tsr ch = old_tsr) \/
+     ((forall c', In c' protect -> larger_rule old_tsr old_tsi c' = false) /\
+      (forall c', In c' pre -> smaller_rule old_tsr old_tsi c' = false) /\ smaller_rule old_tsr old_tsi c = true /\
       ch_tsi ch = c_my_ts c /\ ch_tsr ch = c_peer_ts c)) /\
     is_subset (ch_tsi ch) old_tsi = true /\ is_subset (ch_tsr ch) old_tsr = true.
 Proof. exact rekey_installed. Qed.
 Print Assumptions C12_rekey_installed.
 
-(** FULL STATEMENT (property text "for a rekey they equal those of the replaced SA"):
-      responder_child protect (Some (old_tsi, old_tsr)) tsis tsrs tn = Ok (c, ch) -> ch_tsi ch = old_tsi /\ ch_tsr ch = old_tsr
-    It is FALSE of the faithful model (C12_rekey_same_refuted below, replayed on the real code by the check).
-    Proved: equality when the replaced SA's selectors lie inside a policy entry and no earlier entry is comparable
-    with them (e.g. every single-entry policy). *)
-Theorem C12_rekey_same_partial : forall pre c0 post old_tsi old_tsr tn,
-  (forall c', In c' pre -> comparable old_tsr old_tsi c' = false) ->
+(** "for a rekey they equal those of the replaced SA": holds for every replaced SA whose selectors lie inside some
+    policy entry - which C12_narrowing / C12_initiator_narrow establish for the CHILD_SAs this code creates from the
+    same policy.  (Before fix a2cebd1 this was false: finding F15, kept as regression in the check.) *)
+Theorem C12_rekey_same : forall protect old_tsi old_tsr tsis tsrs tn c ch,
+  (exists c0, In c0 protect /\ is_subset old_tsr (c_peer_ts c0) = true /\ is_subset old_tsi (c_my_ts c0) = true) ->
+  responder_child protect (Some (old_tsi, old_tsr)) tsis tsrs tn = Ok (c, ch) ->
+  ch_tsi ch = old_tsi /\ ch_tsr ch = old_tsr /\
+  is_subset old_tsr (c_peer_ts c) = true /\ is_subset old_tsi (c_my_ts c) = true.
+Proof. exact rekey_same. Qed.
+Print Assumptions C12_rekey_same.
+
+(** and it is accepted exactly with the first covering entry, when that entry has the requested mode *)
+Theorem C12_rekey_accepted : forall pre c0 post old_tsi old_tsr tn,
+  (forall c', In c' pre -> larger_rule old_tsr old_tsi c' = false) ->
   is_subset old_tsr (c_peer_ts c0) = true -> is_subset old_tsi (c_my_ts c0) = true -> c_mode c0 = requested_mode tn ->
   responder_child (pre ++ c0 :: post) (Some (old_tsi, old_tsr)) [old_tsr] [old_tsi] tn =
   Ok (c0, {| ch_tsi := old_tsi; ch_tsr := old_tsr; ch_mode := requested_mode tn |}).
-Proof. exact rekey_same_partial. Qed.
-Print Assumptions C12_rekey_same_partial.
+Proof. exact rekey_accepted. Qed.
+Print Assumptions C12_rekey_accepted.
 
-Theorem C12_rekey_same_refuted :
+(** the covering-entry hypothesis of C12_rekey_same cannot be dropped (an SA no policy entry covers, e.g. after the
+    configuration changed, is rekeyed with the selectors of an entry inside it - narrower, never wider) *)
+Theorem C12_rekey_same_needs_covering_entry :
   exists protect old_tsi old_tsr tn c ch,
-    (exists c0, In c0 protect /\ old_tsi = c_my_ts c0 /\ old_tsr = c_peer_ts c0) /\
     responder_child protect (Some (old_tsi, old_tsr)) [old_tsr] [old_tsi] tn = Ok (c, ch) /\
     ch_tsi ch <> old_tsi /\ ch_tsr ch <> old_tsr.
-Proof. exact rekey_same_refuted. Qed.
-Print Assumptions C12_rekey_same_refuted.
+Proof. exact rekey_same_needs_covering_entry. Qed.
+Print Assumptions C12_rekey_same_needs_covering_entry.
